@@ -65,6 +65,7 @@ def cmd_import(src, prop):
 
 
 def baseline_pass(wt):
+    shutil.rmtree(os.path.join(wt, "SEEDED"), ignore_errors=True)   # not part of the suite
     base = json.load(open("/root/.vp/BASELINE.json"))
     want = set(base["stable_pass"])
     out = os.path.join(wt, "junit_seeded.xml")
@@ -90,7 +91,10 @@ def cmd_confirm(name):
         print(r.stdout)
         return False
     try:
-        demo = os.path.join(wt, "seeded_demo.py")
+        # same relative place as where the seeding agent wrote it (some demos locate the tree
+        # from their own path)
+        os.makedirs(os.path.join(wt, "SEEDED", "m1"), exist_ok=True)
+        demo = os.path.join(wt, "SEEDED", "m1", "demo.py")
         shutil.copy(os.path.join(d, "demo.py"), demo)
         env = dict(os.environ, PYTHONPATH=wt, PYTHONWARNINGS="ignore")
         env.pop("CNFGEN_VERIF", None)
